@@ -13,6 +13,9 @@ mod g_pad;
 mod g_auth;
 mod g_dest;
 mod g_push;
+mod g_open;
+mod g_e2e;
+mod g_pool;
 mod e2e;
 
 use std::io::Write;
@@ -37,6 +40,9 @@ fn group_by_name(name: &str) -> Option<Box<dyn Group>> {
         "auth" => Some(Box::new(g_auth::AuthGroup)),
         "dest" => Some(Box::new(g_dest::DestGroup)),
         "push" => Some(Box::new(g_push::PushGroup)),
+        "open" => Some(Box::new(g_open::OpenGroup)),
+        "e2e" => Some(Box::new(g_e2e::E2eGroup)),
+        "pool" => Some(Box::new(g_pool::PoolGroup)),
         _ => None,
     }
 }
@@ -72,6 +78,7 @@ fn main() {
     std::panic::set_hook(Box::new(|_| {}));
 
     std::fs::create_dir_all(&out).unwrap();
+    if std::env::var("VH_SCRATCH").is_err() { unsafe { std::env::set_var("VH_SCRATCH", &out); } }
     let mut trace = std::io::BufWriter::new(std::fs::File::create(format!("{out}/trace.txt")).unwrap());
     let mut oracle = std::io::BufWriter::new(std::fs::File::create(format!("{out}/oracle.jsonl")).unwrap());
     let mut stats = Stats::default();
